@@ -132,6 +132,100 @@ macro_rules! dispatch_fmt {
     }};
 }
 
+/// the facade alone (C09's view of it): `to_string_with_options` allocates the documented bound itself, so
+/// an under-estimated bound shows as a panic of the facade; None = the bound is too large to allocate here
+fn fw<T, const F: u128>(v: T, o: &T::Options) -> Option<(usize, Result<Vec<u8>, String>)>
+where
+    T: Copy + lexical_core::ToLexicalWithOptions + lexical_core::FormattedSize,
+    T::Options: lexical_core::WriteOptions,
+{
+    #[allow(deprecated)]
+    let size = guard(|| <T::Options as lexical_core::WriteOptions>::buffer_size::<T, F>(o)).ok()?;
+    if size > (1 << 20) {
+        return None;
+    }
+    Some((size, guard(|| lexical::to_string_with_options::<T, F>(v, o).into_bytes())))
+}
+
+/// C09 at the observation point `lexical::to_string_with_options`: no panic, and no more bytes than the bound
+pub fn check_facade_bound(c: &WCase, l: &mut Local) -> CaseResult {
+    let (name, _) = facade_formats()[c.fmt];
+    l.eval(1);
+    let fo = c.opts.to_lexical();
+    if !fo.is_valid() {
+        l.class("skipped:invalid-options");
+        return Ok(());
+    }
+    if c.ty < 2 {
+        let k = if c.ty == 0 { vcore::flt::F32 } else { vcore::flt::F64 };
+        let b = c.value as u64;
+        if (k.is_nan(b) && c.opts.nan == usize::MAX) || (k.is_inf(b) && c.opts.inf == usize::MAX) {
+            l.class("skipped:special-with-disabled-string");
+            return Ok(());
+        }
+    }
+    let io = lexical_core::WriteIntegerOptions::new();
+    let r = dispatch_fmt!(name, F, {
+        match c.ty {
+            0 => fw::<f32, F>(f32::from_bits(c.value as u32), &fo),
+            1 => fw::<f64, F>(f64::from_bits(c.value as u64), &fo),
+            2 => fw::<i64, F>(c.value as i64, &io),
+            3 => fw::<u8, F>(c.value as u8, &io),
+            4 => fw::<u64, F>(c.value as u64, &io),
+            5 => fw::<u128, F>(c.value, &io),
+            _ => fw::<i32, F>(c.value as i32, &io),
+        }
+    });
+    let desc = |what: String| Fail::new(format!("facade format {name} type {} value {:#x} options {}: {}", ["f32", "f64", "i64", "u8", "u64", "u128", "i32"][(c.ty as usize).min(6)], c.value, c.opts.to_json(), what));
+    match r {
+        None => {
+            l.class("skipped:bound-not-allocatable");
+            Ok(())
+        },
+        Some((size, Ok(out))) => {
+            l.nontrivial_hash(splitmix(c.value as u64 ^ hash_bytes(&c.opts.to_bytes()) ^ ((c.fmt as u64) << 50) ^ ((c.ty as u64) << 60)));
+            if l.want_sample() {
+                l.sample(wcase_json(c));
+            }
+            l.class(if size > lexical_core::BUFFER_SIZE { "bound>BUFFER_SIZE" } else { "bound<=BUFFER_SIZE" });
+            if out.len() > size {
+                return Err(desc(format!("lexical::to_string_with_options returned {} bytes, more than the bound {}", out.len(), size)));
+            }
+            Ok(())
+        },
+        Some((size, Err(p))) => Err(desc(format!("lexical::to_string_with_options, which allocates the documented bound ({size} bytes) itself, panicked: {p}"))),
+    }
+}
+
+pub fn facade_case_strategy(extreme: bool) -> BoxedStrategy<WCase> {
+    let nf = facade_formats().len();
+    (0..nf, 0u8..7)
+        .prop_flat_map(move |(fmt, ty)| {
+            let m = FormatModel::decode(facade_formats()[fmt].1);
+            let value: BoxedStrategy<u128> = match ty {
+                0 => prop_oneof![10 => gen::finite_bits(vcore::flt::F32), 1 => Just(0x7f800000u64), 1 => Just(0x7fc00001u64), 1 => Just(0xff800000u64)].prop_map(|b| b as u128).boxed(),
+                1 => prop_oneof![10 => gen::finite_bits(vcore::flt::F64), 1 => Just(0x7ff0000000000000u64), 1 => Just(0x7ff8000000000001u64), 1 => Just(0xfff0000000000000u64)].prop_map(|b| b as u128).boxed(),
+                2 => gen::int_value(64, true, m.mantissa_radix()),
+                3 => gen::int_value(8, false, m.mantissa_radix()),
+                4 => gen::int_value(64, false, m.mantissa_radix()),
+                5 => gen::int_value(128, false, m.mantissa_radix()),
+                _ => gen::int_value(32, true, m.mantissa_radix()),
+            };
+            (value, wopts::strategy(&m, extreme)).prop_map(move |(value, opts)| WCase { fmt, ty, value, opts })
+        })
+        .boxed()
+}
+
+pub fn facade_case_json(c: &WCase) -> Value {
+    wcase_json(c)
+}
+
+pub fn facade_case_from_json(case: &Value) -> Option<WCase> {
+    let fmt = facade_formats().iter().position(|(n, _)| Some(*n) == case["facade_format"].as_str())?;
+    let value = u128::from_str_radix(case["value"].as_str().unwrap_or("0x0").trim_start_matches("0x"), 16).unwrap_or(0);
+    Some(WCase { fmt, ty: case["ty"].as_u64().unwrap_or(1) as u8, value, opts: WOpts::from_json(&case["options"]) })
+}
+
 fn check_facade_write(c: &WCase, l: &mut Local) -> CaseResult {
     let (name, packed) = facade_formats()[c.fmt];
     let m = FormatModel::decode(packed);
@@ -336,9 +430,15 @@ fn rcase_json(c: &RCase) -> Value {
 fn check_ascii_raw(c: &RCase, l: &mut Local) -> CaseResult {
     let st = crate::c18::strs();
     let (nan, inf) = (st[c.nan % st.len()], st[c.inf % st.len()]);
-    let o = lexical_core::WriteFloatOptions::builder().exponent(c.exponent).decimal_point(c.point).nan_string(nan).inf_string(inf).build_unchecked();
+    let b = lexical_core::WriteFloatOptions::builder().exponent(c.exponent).decimal_point(c.point).nan_string(nan).inf_string(inf);
+    let o = b.build_unchecked();
     l.eval(1);
-    if !o.is_valid() {
+    // "valid options" are those the library accepts on either of its two paths: is_valid() or the checked build()
+    let built_ok = b.build().is_ok();
+    if built_ok != o.is_valid() {
+        l.class("raw-options:is_valid-and-build-disagree");
+    }
+    if !o.is_valid() && !built_ok {
         l.class("raw-options:rejected-by-the-library");
         return Ok(());
     }
@@ -357,7 +457,7 @@ fn check_ascii_raw(c: &RCase, l: &mut Local) -> CaseResult {
         if let Ok(out) = r {
             if let Some(b) = out.iter().find(|&&b| b >= 0x80) {
                 return Err(Fail::new(format!(
-                    "{} bits {:#x} with exponent {:#04x} point {:#04x} nan {:?} inf {:?} (accepted by WriteFloatOptions::is_valid): {which} emitted {:?} containing the non-ASCII byte {:#04x}",
+                    "{} bits {:#x} with exponent {:#04x} point {:#04x} nan {:?} inf {:?} (accepted by WriteFloatOptions::is_valid or build): {which} emitted {:?} containing the non-ASCII byte {:#04x}",
                     FLOAT_NAMES[c.fi],
                     c.bits,
                     c.exponent,
